@@ -150,6 +150,16 @@ func buildForest(rng *vh.Rand) *forest {
 		r.Idx = len(f.certs)
 		r.raw = serialize(r, f, rng)
 		r.fp = sha3.Sum256(r.raw)
+		// a parser that has just given up on a truncated or garbled
+		// certificate parses the next one as if nothing had happened
+		if len(r.raw) > 8 && rng.Chance(0.35) {
+			bad := append([]byte(nil), r.raw[:1+rng.Intn(len(r.raw)-1)]...)
+			if rng.Bool() {
+				bad = append([]byte(nil), r.raw...)
+				bad[rng.Intn(16)] ^= byte(1 + rng.Intn(255))
+			}
+			new(certs.Certificate).ReadFrom(bytes.NewReader(bad))
+		}
 		c := new(certs.Certificate)
 		if _, err := c.ReadFrom(bytes.NewReader(r.raw)); err != nil {
 			panic("forge produced unparseable certificate: " + err.Error())
